@@ -55,6 +55,8 @@ MUTANTS = [
     # --- batch processor ---------------------------------------------------
     S("c05-spancount-off-by-one-on-split", BP + "batch_processor.go",
       "\t\tbt.spanCount -= sendBatchMaxSize\n", "\t\tbt.spanCount -= sendBatchMaxSize - 1\n", ["C05", "C06"]),
+    S("c05-d17-metric-metadata-not-copied", BP + "splitmetrics.go",
+      "\tms.Metadata().CopyTo(dest.Metadata())\n", "", ["C05"]),
     S("c05-skip-shutdown-flush", BP + "batch_processor.go",
       "\t\t\t// This is the close of the channel\n\t\t\tif b.batch.itemCount() > 0 {", "\t\t\t// This is the close of the channel\n\t\t\tif b.batch.itemCount() > b.processor.sendBatchSize {", ["C05", "C11"]),
     S("c06-numitems-miscount", BP + "batch_processor.go",
